@@ -206,6 +206,11 @@ const (
 // mkPayload builds a claims set that satisfies every non-signature check of the verifier so that the
 // signature path is the deciding step. marker makes the payload unique; who is the subject / client.
 func mkPayload(kind payloadKind, marker, who string, now time.Time, expired bool) []byte {
+	return mkPayloadSub(kind, marker, who, who, now, expired)
+}
+
+// mkPayloadSub is mkPayload with an explicit subject for the assertion kind (iss = who, sub = sub).
+func mkPayloadSub(kind payloadKind, marker, who, sub string, now time.Time, expired bool) []byte {
 	exp := now.Add(time.Hour).Unix()
 	if expired {
 		exp = now.Add(-time.Hour).Unix()
@@ -219,7 +224,7 @@ func mkPayload(kind payloadKind, marker, who string, now time.Time, expired bool
 		m = map[string]any{"iss": issuer, "sub": who, "aud": []string{"api", rpClient}, "exp": exp, "iat": now.Add(-10 * time.Second).Unix(),
 			"nbf": now.Add(-10 * time.Second).Unix(), "jti": "at-" + marker, "scope": "openid profile", "client_id": rpClient, "vm": marker}
 	case pkAssertion:
-		m = map[string]any{"iss": who, "sub": who, "aud": []string{issuer}, "exp": now.Add(10 * time.Minute).Unix(), "iat": now.Add(-10 * time.Second).Unix(), "vm": marker}
+		m = map[string]any{"iss": who, "sub": sub, "aud": []string{issuer}, "exp": now.Add(10 * time.Minute).Unix(), "iat": now.Add(-10 * time.Second).Unix(), "vm": marker}
 	case pkRequestObject:
 		m = map[string]any{"iss": who, "client_id": who, "aud": []string{issuer}, "response_type": "code", "scope": "openid ro-" + marker,
 			"state": "state-" + marker, "nonce": "nonce-" + marker, "redirect_uri": "https://ro.example/" + marker, "vm": marker}
@@ -307,4 +312,45 @@ func contains(xs []string, x string) bool {
 		}
 	}
 	return false
+}
+
+// genOtherClientKeys draws the keys of a second client: never a key of S, but often under a kid string that S
+// also uses (same kid registered for both clients with different keys).
+func genOtherClientKeys(r *rand.Rand, S []ksEntry) []ksEntry {
+	n := 1 + r.IntN(2)
+	var out []ksEntry
+	used := map[string]bool{}
+	for i := 0; i < n; i++ {
+		var pk poolKey
+		for tries := 0; ; tries++ {
+			pk = trustPool[r.IntN(len(trustPool))]
+			clash := false
+			for _, e := range S {
+				if samePub(e.K.Public(), pk.k.Public()) {
+					clash = true
+				}
+			}
+			for _, e := range out {
+				if samePub(e.K.Public(), pk.k.Public()) {
+					clash = true
+				}
+			}
+			// prefer the family of a key of S so that the same algorithm fits both clients' keys
+			if !clash && (tries > 30 || r.IntN(3) == 0 || pk.fam == poolOf(S[r.IntN(len(S))].K).fam) {
+				break
+			}
+		}
+		e := ksEntry{K: pk.k, Use: pick(r, "sig", "sig", "")}
+		if r.IntN(3) != 0 {
+			e.Kid = S[r.IntN(len(S))].Kid // same kid string as one of the issuer's keys
+		} else {
+			e.Kid = fmt.Sprintf("o%d", r.IntN(3))
+		}
+		for used[e.Kid] {
+			e.Kid = fmt.Sprintf("o%d", r.IntN(1000))
+		}
+		used[e.Kid] = true
+		out = append(out, e)
+	}
+	return out
 }
